@@ -217,3 +217,70 @@ Proof.
   do 4 (split; [vm_compute; reflexivity|]). split; [|vm_compute; reflexivity].
   apply (wf_gmap xn_of (fun e : iedge => (e, @None bool))). exact ex_its_wf.
 Qed.
+
+(** * _add_bond_order_changes: exactly the bonds whose two orders differ, their endpoints with the selected labels; on an ITS whose
+    standard_order is the order difference these are the bonds of get_rc's first pass (keep_mtg = False) *)
+Lemma abo_fst K g L : forall st,
+  fst (fold_left (abo_step K g) L st) =
+  ins_all g (sel_attr K) (ends (filter (fun e : N * N * xedge => negb (e_G (fst (snd e)) =? e_H (fst (snd e)))) L)) (fst st).
+Proof.
+  induction L as [|[[u v] x] L IH]; intros st; simpl; [reflexivity|]. rewrite IH.
+  destruct (e_G (fst x) =? e_H (fst x)); reflexivity.
+Qed.
+Lemma abo_snd K g L : forall st,
+  snd (fold_left (abo_step K g) L st) =
+  snd st ++ map (oute out_edge_rec) (filter (fun e : N * N * xedge => negb (e_G (fst (snd e)) =? e_H (fst (snd e)))) L).
+Proof.
+  induction L as [|[[u v] x] L IH]; intros st; simpl; [rewrite app_nil_r; reflexivity|]. rewrite IH.
+  destruct (e_G (fst x) =? e_H (fst x)); simpl; [|rewrite <- app_assoc]; reflexivity.
+Qed.
+
+Theorem add_bond_order_changes_spec K (g : xits) : wf g ->
+  (forall u v y, find_edge u v (snd (add_bond_order_changes K g)) = Some y <->
+                 exists x, adj g u v = Some x /\ e_G (fst x) <> e_H (fst x) /\ y = out_edge_rec x) /\
+  (forall n b, assoc n (fst (add_bond_order_changes K g)) = Some b <->
+               exists a, label g n = Some a /\ b = sel_attr K a /\
+                         exists u v x, In (u, v, x) (gedges g) /\ e_G (fst x) <> e_H (fst x) /\ (n = u \/ n = v)).
+Proof.
+  intros W. unfold add_bond_order_changes. set (p := fun e : N * N * xedge => negb (e_G (fst (snd e)) =? e_H (fst (snd e)))).
+  assert (forall x : xedge, negb (e_G (fst x) =? e_H (fst x)) = true <-> e_G (fst x) <> e_H (fst x)) as Pn.
+  { intros x. rewrite negb_true_iff, Z.eqb_neq. tauto. }
+  split.
+  - intros u v y. rewrite abo_snd. simpl. unfold oute. rewrite find_edge_map.
+    pose proof (find_edge_filter (fun _ _ (x : xedge) => negb (e_G (fst x) =? e_H (fst x))) (gedges g) (wf_simple W) (fun _ _ _ => eq_refl) u v) as FF.
+    cbv beta in FF. change (fun e : N * N * xedge => negb (e_G (fst (snd e)) =? e_H (fst (snd e)))) with p in FF. fold p. rewrite FF. clear FF.
+    fold (adj g u v). destruct (adj g u v) as [x|]; [|split; [discriminate|intros (x & E & _); discriminate]].
+    destruct (negb (e_G (fst x) =? e_H (fst x))) eqn:I; simpl.
+    + apply Pn in I. split; [intros [= <-]; exists x; auto|intros (x' & [= <-] & _ & ->); reflexivity].
+    + split; [discriminate|]. intros (x' & [= <-] & C & _). apply Pn in C. congruence.
+  - intros n b. rewrite abo_fst. simpl. fold p. rewrite assoc_ins_all. simpl.
+    destruct (LGraph.mem n (ends (filter p (gedges g)))) eqn:M.
+    + apply mem_ends in M. destruct M as (u & v & x & F & Hn). apply filter_In in F. destruct F as [F P]. unfold p in P. simpl in P. apply Pn in P.
+      destruct (label g n) as [a|]; simpl.
+      * split; [intros [= <-]; exists a; repeat split; auto; exists u, v, x; auto|intros (a' & [= <-] & -> & _); reflexivity].
+      * split; [discriminate|intros (a' & C & _); discriminate].
+    + split; [discriminate|]. intros (a & _ & _ & u & v & x & F & P & Hn).
+      assert (LGraph.mem n (ends (filter p (gedges g))) = true) as X; [|congruence].
+      apply mem_ends. exists u, v, x. split; [apply filter_In; split; [exact F|unfold p; simpl; apply Pn; exact P]|exact Hn].
+Qed.
+
+(** on graphs whose standard_order is zero exactly when the two orders are equal (every ITSGraph output without ignore_aromaticity)
+    the helper selects the bonds of get_rc's first pass *)
+Corollary add_bond_order_changes_is_pass1 K (g : xits) : wf g ->
+  (forall u v x, In (u, v, x) (gedges g) -> (e_std (fst x) = 0 <-> e_G (fst x) = e_H (fst x))) ->
+  forall u v, find_edge u v (snd (add_bond_order_changes K g)) <> None <-> find_edge u v (snd (rc_pass1 K false g)) <> None.
+Proof.
+  intros W Hs u v. destruct (add_bond_order_changes_spec K g W) as [A _]. destruct (rc_pass1_spec K false g W) as [B _].
+  assert (forall x, adj g u v = Some x -> (e_G (fst x) <> e_H (fst x) <-> include_x false x = true)) as Eq.
+  { intros x Ad. apply (wf_adj_iff W) in Ad. assert (e_std (fst x) = 0 <-> e_G (fst x) = e_H (fst x)) as H by (destruct Ad as [Ad|Ad]; eapply Hs; eauto).
+    unfold include_x, changed. simpl. rewrite orb_false_r, negb_true_iff, Z.eqb_neq. tauto. }
+  split; intros F.
+  - destruct (find_edge u v (snd (add_bond_order_changes K g))) as [y|] eqn:E; [|congruence]. apply A in E. destruct E as (x & Ad & Hd & _).
+    assert (find_edge u v (snd (rc_pass1 K false g)) = Some (out_edge x)) as ->; [|discriminate]. apply B. exists x. split; [exact Ad|]. split; [apply (Eq x Ad); exact Hd|reflexivity].
+  - destruct (find_edge u v (snd (rc_pass1 K false g))) as [y|] eqn:E; [|congruence]. apply B in E. destruct E as (x & Ad & Hi & _).
+    assert (find_edge u v (snd (add_bond_order_changes K g)) = Some (out_edge_rec x)) as ->; [|discriminate]. apply A. exists x. split; [exact Ad|]. split; [apply (Eq x Ad); exact Hi|reflexivity].
+Qed.
+
+Example C02_abo_nonvacuous :
+  length (snd (add_bond_order_changes K_default ex_steps)) = 4%nat /\ length (fst (add_bond_order_changes K_default ex_steps)) = 4%nat.
+Proof. vm_compute. split; reflexivity. Qed.
